@@ -148,6 +148,8 @@ pub async fn worker(
 			let n_errors = errors.clone();
 			let n_events = events.clone();
 			watcher_type = config_watcher;
+			// a new watcher has nothing registered yet
+			pathset.clear();
 			watcher = config_watcher
 				.create(move |nev: Result<notify::Event, notify::Error>| {
 					trace!(event = ?nev, "receiving possible event from watcher");
